@@ -192,6 +192,7 @@ class Report:
         self.functions = {}  # qualname -> {sha, obligations, discharged}
         self.bounded = {}
         self.violations = []  # dicts: key, what, replay payload
+        self.candidates = []  # E1 counter-model candidates awaiting corroboration by a failing input
         self.faults = []
         self.undecided = []
         self.assumptions = []
@@ -215,6 +216,19 @@ class Report:
     def finish(self, extra_cov=None, explanation=None):
         import re
 
+        # E1 candidates (bounded-universe counter-models) count only when some bounded group failed in this run
+        if self.candidates:
+            if self.violations:
+                witness = next((v for v in self.violations if v["payload"].get("group")), self.violations[0])
+                for c in self.candidates:
+                    c["payload"]["corroborated_by"] = witness["key"]
+                    c["payload"]["no_failing_input"] = False
+                    c["payload"].setdefault("group", witness["payload"].get("group"))
+                    c["payload"].setdefault("case", witness["payload"].get("case"))
+                    self.violations.append(c)
+            else:
+                for c in self.candidates:
+                    self.undecided.append(c["what"] + " - not corroborated by any failing input of the bounded groups")
         known = self.load_known()
         new, listed = [], {}
         for v in self.violations:
